@@ -599,12 +599,12 @@ def T(pkg, harness, params=None, **kw):
 
 
 def c16(tier):
-    n, d = W(tier, 2, 3), W(tier, 2, 3)
+    n, d = W(tier, 2, 3), 2
     jobs = [T("utils", "VerifC16_TypeLine", {"N": n, "D": d}), T("utils", "VerifC16_ExtendedTypeLine", {"N": n, "D": d}),
             T("utils", "VerifC16_ConditionLine", {"N": n, "D": d}), T("utils", "VerifC16_RelationLine", {"N": n, "D": d}),
             T("utils", "VerifC16_Column", {"N": 3}),
             T("transformer", "VerifC03_PrePass", {"N": W(tier, 6, 8)}),
-            T("transformer", "VerifC07_Merge", {"SCEN": 1, "N": 2, "NR": 1}),
+            T("transformer", "VerifC07_Merge", {"SCEN": 1, "N": 2, "NR": 1, "SEPS": 1}),
             T("transformer", "VerifC07_Merge", {"SCEN": 0, "F": 2, "DECLS": 3, "RELS": 1, "CONDS": 1, "FAULTS": 0, "N": 2, "NR": 1}),
             LJ("VerifListener_Doc", tier, MODULES=1, EXTEND=1, NODES=1, DEPTH=0, CONDS=2),
             T("transformer", "VerifC16_SyntaxError")]
@@ -613,7 +613,7 @@ def c16(tier):
                           "VerifC16_RelationLine": ["relation"], "VerifC16_Column": ["column"], "VerifC03_PrePass": ["lemmas-checked"], "VerifC07_Merge": ["rejected"], "VerifListener_Doc": ["rejected"], "VerifC16_SyntaxError": ["recorded"]},
                          ["ANTLR token positions with respect to the cleaned text are outside (lexer/parser not encoded)",
                           "declaration lines follow the layout <indent><keyword> <name><tail>"], "",
-                         bounds={"line lookups": "<= %d declarations, names of length 1..%d over {a,b,_,.,-}, 3 indents, 2-3 tails" % (d + 1, n),
+                         bounds={"line lookups": "<= %d declarations, names of length 1..%d over {a,e,t,_,.,-}, 5 indents (blanks/tabs), 3 keyword-name separators, 2-3 tails" % (d + 1, n),
                                  "pre-pass": "all byte strings of length <= %d" % W(tier, 6, 8)})
     out.finish()
 
@@ -708,6 +708,8 @@ FAMS = {
     "K": ({"R": 2, "L10": M(0, 1, 7, 8, 13, 14, 15), "L20": M(16, 19), "REV0": 1, "L11": M(0, 4, 16)}, "K: swapped operand order (computed userset before the direct assignment), conditioned/duplicate restrictions"),
     "N": ({"R": 3, "L10": M(16, 17), "L20": M(16, 17), "OP0": 2, "L11": M(0, 1), "L21": M(21), "OP1": 1, "L12": M(0, 1)},
           "N: a = y | z | y and z | z and y, b = [user]|[user,employee] optionally `or b from p` (recursive), c = [user]|[user,employee] (48 models)"),
+    "Q": ({"R": 3, "NEST0": 1, "L11": M(0, 1), "L12": M(0, 1, 2)},
+          "Q: a = (A1 op1 A2) op (B1 op2 B2) with operands from {[user],[user,employee],y,z}, all 27 operator triples; b, c leaves (2592 models)"),
     "L": ({"R": 3, "L10": M(0, 4, 5, 9, 10, 16), "L11": M(0, 4, 5, 9, 10, 16, 17), "L12": M(0, 4, 5, 9, 10, 16, 17), "L22": M(16, 17), "OP2": 3},
           "L: three relations with multi-userset restrictions (interlocking tuple cycles)"),
 }
@@ -747,11 +749,11 @@ def kernels():
 
 
 RA, RR, FI, AL = (ROOT_ALL, "all root orders of AssignWeights"), (ROOT_ROT, "every start node of AssignWeights (rotations + reverse)"), (FIRST, "first order"), (ALL, "all orders of all maps")
-THOROUGH_GRAPH = [("N", *RA), ("B", *RA), ("D", *FI), ("E", *RA), ("P", *RA), ("A", *AL), ("G", *RR), ("H", *RA), ("K", *RA), ("L", *RA), ("J", *RR)]
+THOROUGH_GRAPH = [("Q", *RR), ("N", *RA), ("B", *RA), ("D", *FI), ("E", *RA), ("P", *RA), ("A", *AL), ("G", *RR), ("H", *RA), ("K", *RA), ("L", *RA), ("J", *RR)]
 
 
 def c04(tier):
-    graph_check("C04", 4, tier, [("B", *FI), ("J", *FI), ("K", *FI), ("N", *RA), ("H", *RR), ("L", *RR), ("C", *RA)], THOROUGH_GRAPH, extra_jobs=kernels())
+    graph_check("C04", 4, tier, [("B", *FI), ("J", *FI), ("K", *FI), ("Q", *FI), ("N", *RA), ("H", *RR), ("L", *RR), ("C", *RA)], THOROUGH_GRAPH, extra_jobs=kernels())
 
 
 def c05(tier):
@@ -765,7 +767,7 @@ def c06(tier):
 
 
 def c10(tier):
-    graph_check("C10", 10, tier, [("B", *FI), ("P", *FI), ("J", *FI), ("K", *FI), ("H", *FI), ("G", *FI)], [("D", *FI), ("E", *FI), ("P", *RA), ("L", *FI), ("G", *FI), ("H", *FI), ("J", *FI), ("K", *FI)])
+    graph_check("C10", 10, tier, [("B", *FI), ("P", *FI), ("J", *FI), ("K", *FI), ("H", *FI), ("G", *FI), ("Q", *FI)], [("D", *FI), ("E", *FI), ("P", *RA), ("L", *FI), ("G", *FI), ("H", *FI), ("J", *FI), ("K", *FI)])
 
 
 def c11(tier):
@@ -860,7 +862,8 @@ NAMES = dict(NODES=1, DEPTH=0, SIBLINGS=1, CONDS=1, FIXLAYOUT=1, PARAMS=2, N=2)
 def c01(tier):
     jobs = [LJ("VerifC01_RoundTrip", tier, NODES=W(tier, 4, 5), DEPTH=W(tier, 1, 2), **SHAPES), LJ("VerifC01_RoundTrip", tier, **NAMES),
             LJ("VerifC01_RoundTrip", tier, NODES=2, CONDS=W(tier, 1, 2)),
-            LJ("VerifC01_RoundTrip", tier, CHAIN=W(tier, 9, 16), **SHAPES)]
+            LJ("VerifC01_RoundTrip", tier, CHAIN=W(tier, 9, 16), **SHAPES),
+            LJ("VerifC01_RoundTrip", tier, NODES=1, DEPTH=0, SIBLINGS=0, CONDS=1, FIXLAYOUT=1, PARAMS=2, PTYPES=1)]
     out = engine_a_check("C01", tier, jobs, {"VerifC01_RoundTrip": ["rendered", "stable"]},
                          PARSER_STUB + ["condition expressions are a fixed token sequence without '#'", "the JSON string API differs from the direct hand-over only by protojson (not encoded)"], "",
                          bounds={"shapes": "expression trees with <= %d operands in total, parenthesis depth <= %d, redundant parentheses <= 2 pairs, 4 restriction lists" % (W(tier, 4, 5), W(tier, 1, 2)),
@@ -895,7 +898,7 @@ MERGE_ASSUME = ["TransformModularDSLToProto (lexer+parser+listener) is replaced 
 def merge_jobs(tier, harness, pols):
     jobs = []
     n = W(tier, 2, 2)
-    for scen, extra in ((1, {}), (2, {}), (0, {"F": 2, "DECLS": W(tier, 3, 4), "RELS": W(tier, 1, 2), "CONDS": 1, "FAULTS": 0}),
+    for scen, extra in ((1, {"SEPS": 1}), (2, {}), (0, {"F": 2, "DECLS": W(tier, 3, 4), "RELS": W(tier, 1, 2), "CONDS": 1, "FAULTS": 0}),
                         (0, {"F": 2, "DECLS": 2, "RELS": 1, "CONDS": 1, "FAULTS": 1, "N": 1})):
         params = dict({"SCEN": scen, "N": n, "NR": 1}, **extra)
         jobs.append(T("transformer", harness, params, **pols))
